@@ -107,10 +107,11 @@ def eliot_friendly_generator_function(original):
                     return value_out
 
                 value_out = context.run(go)
-            except StopIteration:
+            except StopIteration as stop:
                 # When the generator raises this, it is signaling
-                # completion.  Leave the loop.
-                break
+                # completion.  Leave the loop, passing along the
+                # generator's return value.
+                return stop.value
             else:
                 try:
                     # Pass the generator's result along to whoever is
